@@ -196,6 +196,169 @@ Proof.
     + rewrite <- E. cbn [rev]. rewrite last_last. exact H2.
 Qed.
 
+(** ---------------------------------------------------------------------------------------------------------
+    Reverse is an involution on paths of OPEN subpaths with every segment type (lines, quadratics, cubics, arcs). *)
+Definition flag_ok (s : seg) : Prop :=
+  match s with SA _ _ _ fl _ => In fl [0; 1; 2 # 1; 3 # 1] | _ => True end.
+Definition flags_ok (l : list seg) : Prop := Forall flag_ok l.
+
+Lemma retarget_draws s e : draws (retarget s e) = draws s.
+Proof. destruct s; reflexivity. Qed.
+Lemma retarget_end s e : seg_end (retarget s e) = e.
+Proof. destruct s; reflexivity. Qed.
+Lemma retarget_flag_ok s e : flag_ok s -> flag_ok (retarget s e).
+Proof.
+  destruct s; cbn [retarget flag_ok]; auto.
+  intros [H|[H|[H|[H|[]]]]]; subst; vm_compute; auto 6.
+Qed.
+Lemma retarget_retarget s a : draws s = true -> flag_ok s -> retarget (retarget s a) (seg_end s) = s.
+Proof.
+  destruct s; cbn [draws]; try discriminate; intros _ Hf; cbn [retarget seg_end]; try reflexivity.
+  cbn [flag_ok] in Hf. rewrite (flip_sweep_invol _ Hf). reflexivity.
+Qed.
+
+(** the reversed body, read forwards: every record re-targeted to its own START point *)
+Fixpoint to_starts (b : list seg) (p0 : pt) : list seg :=
+  match b with [] => [] | s :: r => retarget s p0 :: to_starts r (seg_end s) end.
+
+Lemma rev_spec_snoc rs x p0 : rev_spec (rs ++ [x]) p0 = rev_spec rs (seg_end x) ++ [retarget x p0].
+Proof.
+  induction rs as [|y r IH]; [reflexivity|].
+  cbn [app rev_spec]. rewrite IH. destruct r; reflexivity.
+Qed.
+
+Lemma rev_rev_spec b : forall p0, rev (rev_spec (rev b) p0) = to_starts b p0.
+Proof.
+  induction b as [|s r IH]; intro p0; [reflexivity|].
+  cbn [rev to_starts]. rewrite rev_spec_snoc, rev_app_distr. cbn [rev app]. rewrite IH. reflexivity.
+Qed.
+
+Definition end_of (b : list seg) (p0 : pt) : pt := seg_end (last b (SM p0)).
+
+Lemma last_default (l : list seg) : forall d d', l <> [] -> last l d = last l d'.
+Proof.
+  induction l as [|x r IH]; intros d d' H; [congruence|].
+  destruct r as [|y r']; [reflexivity|]. cbn [last]. apply IH. congruence.
+Qed.
+Lemma end_of_cons s r p0 : end_of (s :: r) p0 = end_of r (seg_end s).
+Proof.
+  unfold end_of. destruct r as [|y r']; [reflexivity|].
+  change (last (s :: y :: r') (SM p0)) with (last (y :: r') (SM p0)).
+  f_equal. apply last_default. congruence.
+Qed.
+
+Lemma rev_spec_to_starts b : forall p0, all_draw b -> flags_ok b ->
+  rev_spec (to_starts b p0) (end_of b p0) = b.
+Proof.
+  induction b as [|s r IH]; intros p0 Hd Hf; [reflexivity|].
+  inversion Hd as [|? ? Hs Hr]; subst. inversion Hf as [|? ? Fs Fr]; subst.
+  cbn [to_starts rev_spec]. rewrite end_of_cons. rewrite (IH (seg_end s) Hr Fr). f_equal.
+  destruct r as [|y r'].
+  - cbn [to_starts]. unfold end_of. cbn [last seg_end]. apply retarget_retarget; assumption.
+  - cbn [to_starts]. rewrite retarget_end. apply retarget_retarget; assumption.
+Qed.
+
+Lemma all_draw_rev_spec rs p0 : all_draw rs -> all_draw (rev_spec rs p0).
+Proof.
+  induction rs as [|x r IH]; intro H; [constructor|].
+  inversion H; subst. cbn [rev_spec]. constructor; [rewrite retarget_draws; assumption | apply IH; assumption].
+Qed.
+Lemma flags_ok_rev_spec rs p0 : flags_ok rs -> flags_ok (rev_spec rs p0).
+Proof.
+  induction rs as [|x r IH]; intro H; [constructor|].
+  inversion H; subst. cbn [rev_spec]. constructor; [apply retarget_flag_ok; assumption | apply IH; assumption].
+Qed.
+
+Lemma last_rev_spec_end rs p0 e : rs <> [] -> seg_end (last (rev_spec rs p0) (SM e)) = p0.
+Proof.
+  induction rs as [|x r IH]; intro H; [congruence|].
+  destruct r as [|y r'].
+  - cbn [rev_spec last]. apply retarget_end.
+  - change (rev_spec (x :: y :: r') p0) with (retarget x (seg_end y) :: rev_spec (y :: r') p0).
+    assert (Hn : rev_spec (y :: r') p0 <> []) by (cbn [rev_spec]; congruence).
+    assert (IH' : seg_end (last (rev_spec (y :: r') p0) (SM e)) = p0) by (apply IH; congruence).
+    remember (rev_spec (y :: r') p0) as L eqn:EL. destruct L as [|z zs]; [congruence|].
+    cbn [last]. exact IH'.
+Qed.
+
+(** one open subpath *)
+Theorem reverse_involutive_open p0 body : all_draw body -> flags_ok body ->
+  reverse (reverse (SM p0 :: body)) = SM p0 :: body.
+Proof.
+  intros Hd Hf. rewrite (reverse_open p0 body Hd).
+  assert (Hd' : all_draw (rev_spec (rev body) p0)) by (apply all_draw_rev_spec, Forall_rev; exact Hd).
+  rewrite (reverse_open _ _ Hd'). rewrite rev_rev_spec.
+  destruct body as [|s r].
+  - reflexivity.
+  - f_equal.
+    + f_equal. apply last_rev_spec_end. cbn [rev]. destruct (rev r); cbn; congruence.
+    + change (seg_end (last (s :: r) (SM p0))) with (end_of (s :: r) p0). apply rev_spec_to_starts; assumption.
+Qed.
+
+(** any number of open subpaths: Reverse reverses the order of the subpaths and each subpath on its own *)
+Notation sub := (pt * list seg)%type.
+Definition flat (l : list sub) : list seg := flat_map (fun x => SM (fst x) :: snd x) l.
+Definition rsub (x : sub) : sub := (end_of (snd x) (fst x), rev_spec (rev (snd x)) (fst x)).
+Definition osub_ok (x : sub) : Prop := all_draw (snd x) /\ flags_ok (snd x).
+
+Lemma all_draw_no_move b : all_draw b -> no_move b.
+Proof. intro H. induction H as [|x l Hx Hl IH]; constructor; [destruct x; cbn in Hx; try discriminate; exact I | exact IH]. Qed.
+
+Lemma flat_app a b : flat (a ++ b) = flat a ++ flat b.
+Proof. unfold flat. apply flat_map_app. Qed.
+
+Lemma reverse_flat l : Forall osub_ok l -> reverse (flat l) = flat (rev (map rsub l)).
+Proof.
+  induction l as [|x r IH] using rev_ind; intro H; [reflexivity|].
+  apply Forall_app in H as [Hr Hx]. inversion Hx as [|? ? [Hd Hf] _]; subst.
+  destruct x as [p0 b]. cbn [fst snd] in Hd, Hf.
+  assert (E1 : flat [(p0, b)] = SM p0 :: b) by (unfold flat; cbn [flat_map fst snd]; apply app_nil_r).
+  assert (E2 : flat (rev (map rsub (r ++ [(p0, b)]))) = (SM (end_of b p0) :: rev_spec (rev b) p0) ++ flat (rev (map rsub r))).
+  { rewrite map_app, rev_app_distr. cbn [map rev app]. unfold flat, rsub. cbn [flat_map fst snd]. reflexivity. }
+  rewrite E2, flat_app, E1.
+  destruct r as [|y r'].
+  - cbn [flat flat_map app map rev]. rewrite app_nil_r. apply (reverse_open p0 b Hd).
+  - rewrite reverse_app.
+    + rewrite (reverse_open p0 b Hd). rewrite IH by exact Hr. reflexivity.
+    + unfold flat. destruct y. cbn [flat_map app]. congruence.
+    + apply all_draw_no_move. exact Hd.
+Qed.
+
+Lemma rsub_ok x : osub_ok x -> osub_ok (rsub x).
+Proof.
+  intros [Hd Hf]. split; cbn [rsub snd].
+  - apply all_draw_rev_spec, Forall_rev; exact Hd.
+  - apply flags_ok_rev_spec, Forall_rev; exact Hf.
+Qed.
+
+Lemma rsub_rsub x : osub_ok x -> rsub (rsub x) = x.
+Proof.
+  intros [Hd Hf]. destruct x as [p0 b]. unfold rsub. cbn [fst snd].
+  rewrite rev_rev_spec. f_equal.
+  - destruct b as [|s r]; [reflexivity|]. unfold end_of at 1. apply last_rev_spec_end. cbn [rev]. destruct (rev r); cbn; congruence.
+  - apply rev_spec_to_starts; assumption.
+Qed.
+
+Theorem reverse_involutive_open_subpaths l : Forall osub_ok l -> reverse (reverse (flat l)) = flat l.
+Proof.
+  intro H. rewrite (reverse_flat l H).
+  assert (H' : Forall osub_ok (rev (map rsub l))).
+  { apply Forall_rev. apply Forall_forall. intros y Hy. apply in_map_iff in Hy as [x [<- Hx]].
+    apply rsub_ok. rewrite Forall_forall in H. apply H. exact Hx. }
+  rewrite (reverse_flat _ H'). rewrite map_rev, rev_involutive, map_map.
+  f_equal. rewrite <- (map_id l) at 2. apply map_ext_in. intros x Hx. apply rsub_rsub.
+  rewrite Forall_forall in H. apply H. exact Hx.
+Qed.
+
+Example reverse_involutive_open_ex :
+  let p := [SM (0, 0); SL (1, 0); SQ (2, 1) (3, 0); SM (5, 5); SC (6, 6) (7, 7) (8, 5); SA 1 (2 # 1) 0 1 (9, 9)] in
+  reverse (reverse p) = p /\ Forall osub_ok [((0, 0), [SL (1, 0); SQ (2, 1) (3, 0)]); ((5, 5), [SC (6, 6) (7, 7) (8, 5); SA 1 (2 # 1) 0 1 (9, 9)])].
+Proof.
+  split; [vm_compute; reflexivity|].
+  repeat (apply Forall_cons || apply Forall_nil); unfold osub_ok, all_draw, flags_ok; cbn [fst snd];
+    (split; repeat (apply Forall_cons || apply Forall_nil); cbn; auto 8).
+Qed.
+
 Example reverse_ex :
   reverse [SM (0, 0); SL (1, 0); SL (1, 1); SZ (0, 0); SM (5, 5); SQ (6, 6) (7, 5); SA 1 (2 # 1) 0 1 (9, 9)]
   = [SM (9, 9); SA 1 (2 # 1) 0 (3 # 1) (7, 5); SQ (6, 6) (5, 5); SM (0, 0); SL (1, 1); SL (1, 0); SZ (0, 0)].
